@@ -74,8 +74,8 @@ def judge(ctx, trace, comp, jobs=8):
 
     def sets(out, tag):
         r = []
-        for m in re.findall(r'<<"%s", \{([^}]*)\}' % tag, out):
-            r += [int(x) for x in m.replace("\n", " ").replace(" ", "").split(",") if x]
+        for m in re.findall(r'<<\s*"%s",\s*\{([^}]*)\}' % tag, out):
+            r += [int(x) for x in re.split(r"[\s,]+", m) if x]
         return sorted(set(r))
 
     def one(piece):
@@ -83,10 +83,14 @@ def judge(ctx, trace, comp, jobs=8):
         rc, out, dt = kit.tlc("Trace_Sample", "Trace_Sample.cfg", ctx.work, workers=1, env={"TRACE": path},
                               timeout=1700, heap="5g")
         m = re.search(r'<<"JUDGED", (\d+)>>', out)
-        if rc != 0 or "Error:" in out or not m or int(m.group(1)) != nlines:
+        n = re.search(r'<<"COUNTS", (\d+), (\d+), (\d+)>>', out)
+        got = (sets(out, "BAD"), sets(out, "HEAPSET"), sets(out, "OUTSIDE"))
+        # every line judged, and every member of the three sets actually read back from TLC's output
+        if (rc != 0 or "Error:" in out or not m or int(m.group(1)) != nlines or not n
+                or [int(x) for x in n.groups()] != [len(x) for x in got]):
             raise kit.ToolError("trace validation Trace_Sample on %s failed (rc=%s):\n%s" %
                                 (path, rc, "\n".join(out.splitlines()[-40:])))
-        return path, nlines, sets(out, "BAD"), sets(out, "HEAPSET"), sets(out, "OUTSIDE")
+        return (path, nlines) + got
 
     with cf.ThreadPoolExecutor(max_workers=jobs) as ex:
         outs = list(ex.map(one, pieces))
@@ -120,13 +124,25 @@ def judge(ctx, trace, comp, jobs=8):
 
 def pipeline(ctx, prop, replay=None, profiles=("debug",)):
     """Runs one property; returns (functional rejections, heap rejections)."""
-    bins = [(p, ctx.cargo_build("hx_sample", release=(p == "release"))) for p in profiles]
+    # VERIF_SAMPLE_WORKSPACE: a scratch copy of the harness workspace whose path dependency points at a mutated
+    # copy of dasp_sample (sharpness experiments, see notes/sample.md); default = the real harness on /repo
+    ws = os.environ.get("VERIF_SAMPLE_WORKSPACE", kit.HARNESS)
+    if ws != kit.HARNESS:
+        ctx.notes.append("harness workspace overridden: " + ws)
+    bins = [(p, ctx.cargo_build("hx_sample", release=(p == "release"), workspace=ws)) for p in profiles]
     if replay:
         stim_files = [("replay", replay)]
     else:
         stim = os.path.join(ctx.work, "sample_%s_mc.ndjson" % prop)
         mc(ctx, prop, stim)
-        ctx.exhaustive = True
+        ctx.exhaustive = True   # the MC configuration has no state constraint; its value sets are finite by construction
+        ctx.extra["mc_constants"] = {
+            "Tier": ctx.tier, "PROP": prop,
+            "integer boundary set": "per width b: 0, +-1..3, MIN..MIN+2, MAX-2..MAX, 0101.. patterns, and for k in KSet(b): "
+                                    "+-2^k, +-(2^k+-1), +-(2^(b-1)-2^k) and neighbours; KSet = all k (thorough) / k near 0, b and multiples of 8 (quick)",
+            "scaled-down widths": "integer formats of 2,3,4,6 bits and custom types of 3,4,5 bits exhaustively; "
+                                  "I11/U11: every second operand for every (thorough) / every 8th (quick) first operand",
+        }
         rnd = os.path.join(ctx.work, "sample_%s_gen.ndjson" % prop)
         ctx.harness(bins[0][1], ["gen", str(ctx.seed), ctx.tier, rnd, prop.lower()])
         stim_files = [("tlc", stim), ("gen", rnd)]
